@@ -372,6 +372,9 @@ func (e *Expression) Insert(res fhir.Resource, value fhir.Base, index int, optio
 	if res == nil {
 		return fmt.Errorf("%w: nil input resource", ErrInvalidInput)
 	}
+	if value == nil {
+		return fmt.Errorf("%w: nil value to insert", ErrInvalidInput)
+	}
 	ctx, evalResult, err := e.evaluate(res, options...)
 	if err != nil {
 		return err
@@ -473,6 +476,9 @@ func (e *Expression) Move(resource fhir.Resource, sourceIndex, destIndex int, op
 func (e *Expression) Replace(resource fhir.Resource, value fhir.Base, options ...fhirpath.EvaluateOption) error {
 	if resource == nil {
 		return fmt.Errorf("%w: nil input resource", ErrInvalidInput)
+	}
+	if value == nil {
+		return fmt.Errorf("%w: nil replacement value", ErrInvalidInput)
 	}
 	ctx, evalResult, err := e.evaluate(resource, options...)
 	if err != nil {
